@@ -129,3 +129,177 @@ def check(ctx, rng, n):
         ctx.tie_broken("correspondence", "K-syn: the rewriter model (RwFrag.v) and the real rewriter produce different trees on %d of %d fragment programs" % (len(bad), len(cases)),
                        json.dumps(bad[0])[-2500:])
     return len(cases), ok
+
+
+# ---------------------------------------------------------------- K-sem: model/FragSem.v against CPython + the real runtime
+SEM_HEADER = """From Coq Require Import List ZArith NArith Bool.
+Import ListNotations.
+From PyccoloV Require Import gen.Events model.Tree model.Erase model.RwFrag model.FragSem.
+Local Open Scope N_scope.
+Definition encv (v : val) : Z * Z := match v with VInt z => (0, z) | VBool b => (1, if b then 1 else 0) | VNone => (2, 0) | VStr s => (3, Z.of_N s) end%Z.
+Definition enco (o : option val) : Z * Z := match o with Some v => encv v | None => (4, 0)%Z end.
+Definition ence (en : entry) := (event_idx (fst (fst en)), snd (fst en), enco (snd en)).
+Definition encx (x : option exc) : N := match x with None => 0 | Some ENameError => 1 | Some ETypeError => 2 | Some EZeroDiv => 3 end.
+Definition encenv (r : env) (names : list N) := map (fun x => match r x with Some v => encv v | None => (5, 0)%Z end) names.
+Definition one (c : rcfg) (names : list N) (s o : tree) :=
+  match of_module s with
+  | None => None
+  | Some m =>
+      let im := instr_module c m in
+      let a := exec_l Py.binop Py.cmpop Py.unop Py.truth Py.cval Py.is_and im (fun _ => None) VNone in
+      let rf := ref_module Py.binop Py.cmpop Py.unop Py.truth Py.cval Py.is_and m (fun _ => None) in
+      Some (tree_eqb (tt_module im) o && tree_eqb (tt_module im) (rw_module c s),
+            (encx (s_exc a), encenv (s_env a) names, map ence (filter_log c (s_log a))),
+            (encx (r_exc rf), encenv (r_env rf) names, map ence (filter_log c (r_log rf))))
+  end.
+"""
+
+
+class GSem(G):
+    """programs whose values stay within ints / bools / None: the Python-like instance of FragSem.v is exact on them"""
+
+    def atom(self):
+        r = self.rng.random()
+        if r < 0.4:
+            return self.rng.choice(["a", "b", "c", "a", "b", "c", "d", "zz"] if self.rng.random() < 0.08 else ["a", "b", "c"])
+        if r < 0.88:
+            return str(self.rng.choice([0, 1, 1, 2, 2, 3, 4, 5, 7]))
+        return self.rng.choice(["True", "False", "True", "False", "None"])
+
+    def expr(self, d=0):
+        r = self.rng.random()
+        if d >= 3 or r < 0.3:
+            return self.atom()
+        if r < 0.55:
+            return "(%s %s %s)" % (self.expr(d + 1), self.rng.choice(["+", "-", "*", "//", "%", "&", "|"]), self.expr(d + 1))
+        if r < 0.75:
+            n = self.rng.choice([1, 1, 2, 3])
+            s = self.expr(d + 1)
+            for _ in range(n):
+                s += " %s %s" % (self.rng.choice(["<", "<=", "==", "!=", ">", ">="]), self.expr(d + 1))
+            return "(%s)" % s
+        if r < 0.83:
+            return "(%s %s)" % (self.rng.choice(["-", "not", "+"]), self.expr(d + 1))
+        if r < 0.92:
+            return "(%s)" % (" %s " % self.rng.choice(["and", "or"])).join(self.expr(d + 1) for _ in range(self.rng.choice([2, 3])))
+        return "(%s if %s else %s)" % (self.expr(d + 1), self.expr(d + 1), self.expr(d + 1))
+
+    def stmts(self, depth, n):
+        out = []
+        for _ in range(n):
+            r = self.rng.random()
+            if r < 0.4:
+                out.append("%s = %s" % (" = ".join(self.rng.sample(["a", "b", "c", "d"], self.rng.choice([1, 1, 2]))), self.expr()))
+            elif r < 0.6:
+                out.append(self.expr())
+            elif r < 0.68:
+                out.append("pass")
+            elif depth < 2:
+                out.append("if %s:" % self.expr())
+                out += ["    " + l for l in self.stmts(depth + 1, self.rng.choice([1, 2]))]
+                if self.rng.random() < 0.5:
+                    out.append("else:")
+                    out += ["    " + l for l in self.stmts(depth + 1, self.rng.choice([1, 2]))]
+            else:
+                out.append(self.expr())
+        return out
+
+
+EXC = {None: 0, "NameError": 1, "TypeError": 2, "ZeroDivisionError": 3}
+
+
+def enc_val(v):
+    k = v[0]
+    if k == "none":
+        return (2, 0)
+    if k == "bool":
+        return (1, 1 if v[1] else 0)
+    if k == "int":
+        return (0, v[1])
+    if k == "callable":
+        return (4, 0)
+    return (9, 0)
+
+
+def check_sem(ctx, rng, n):
+    """returns (cases, agreeing, distribution); breaks the tie on disagreement"""
+    import random
+    ev_idx = {e: i for i, e in enumerate(json.load(open(lib.os.path.join(lib.VERIF, "coq", "gen", "events.json")))["events"])}
+    cases = []
+    for i in range(n):
+        g = GSem(random.Random(rng.random()))
+        mode = rng.choice(["all", "single", "half", "sparse", "dense"])
+        if mode == "all":
+            ev = list(FRAG_EVENTS)
+        elif mode == "single":
+            ev = [rng.choice(FRAG_EVENTS)]
+        else:
+            d = {"half": 0.5, "sparse": 0.15, "dense": 0.85}[mode]
+            ev = [e for e in FRAG_EVENTS if rng.random() < d] or [rng.choice(FRAG_EVENTS)]
+        cases.append({"src": g.program(), "events": ev, "guards": rng.random() < 0.5})
+    out = []
+    for i in range(0, len(cases), 40):
+        r, res, o = lib.impl_run("c01_sem.py", cases[i:i + 40], timeout=1200)
+        if res is None:
+            raise RuntimeError("implementation harness failed:\n" + o[-3000:])
+        out += res
+    shard = 10
+    texts = []
+    NAMES = ["a", "b", "c", "d"]
+    for i in range(0, len(cases), shard):
+        L = [SEM_HEADER]
+        for j, (c, im) in enumerate(zip(cases[i:i + shard], out[i:i + shard])):
+            if "src_tree" not in im:
+                L.append("Eval vm_compute in (@None nat).")
+                continue
+            subs = "; ".join(coq_event(e) for e in c["events"])
+            names = "; ".join(str(im["names"].get(x, 99)) for x in NAMES)
+            L.append("Definition s%d := %s.\nDefinition o%d := %s.\nEval vm_compute in one {| sub := fun e => existsb (event_eqb e) [%s] |} [%s] s%d o%d."
+                     % (j, im["src_tree"], j, im["out_tree"], subs, names, j, j))
+        texts.append(("fragsem_%d" % i, "\n".join(L) + "\n"))
+    res = lib.coq_eval_many(texts, timeout=900)
+    ok, bad = 0, []
+    dist = {"raising": 0, "log_entries": 0, "exceptions": {}}
+    for i in range(0, len(cases), shard):
+        rc_, o = res["fragsem_%d" % i]
+        vals = lib.parse_marked(o) if rc_ == 0 else []
+        chunk = cases[i:i + shard]
+        if rc_ != 0 or len(vals) != len(chunk):
+            bad.append({"coqc_failed": o[-800:]})
+            continue
+        for c, v, im in zip(chunk, vals, out[i:i + shard]):
+            if "crash" in im:
+                bad.append({"case": c, "crash": im["crash"]})
+                continue
+            p = lib.parse_coq_list(v)
+            if not (isinstance(p, tuple) and p[0] == "Some"):
+                bad.append({"case": c, "model": "of_module failed: the program is outside the fragment", "printed": v[:200]})
+                continue
+            same_tree, (mx, menv, mlog), (rx, renv, rlog) = p[1]
+            impl_log = [(ev_idx[e], nid) + enc_val(val) for e, nid, val in im["log"]]
+            impl_env = [enc_val(im["bindings"][x]) if x in im["bindings"] else (5, 0) for x in NAMES]
+            plain_env = [enc_val(im["plain_bindings"][x]) if x in im["plain_bindings"] else (5, 0) for x in NAMES]
+            mlog_ = [(e, nid) + tuple(val) for e, nid, val in mlog]
+            rlog_ = [(e, nid) + tuple(val) for e, nid, val in rlog]
+            problems = []
+            if same_tree is not True:
+                problems.append("tt_module (instr_module c m) differs from the real rewriter's output or from rw_module c (source tree) of model/RwFrag.v")
+            if EXC.get(im["exc"], 9) != mx or [tuple(x) for x in menv] != impl_env or mlog_ != impl_log:
+                problems.append("evaluation of the instrumented term differs from the real run (exception / bindings / event stream)")
+            if EXC.get(im["plain_exc"], 9) != rx or [tuple(x) for x in renv] != plain_env:
+                problems.append("reference evaluation of the source differs from plain CPython")
+            if rlog_ != impl_log:
+                problems.append("reference event stream differs from the stream the real tracer recorded")
+            if problems:
+                bad.append({"case": c, "problems": problems, "impl": {"exc": im["exc"], "env": impl_env, "log": impl_log[:40]},
+                            "model": {"exc": mx, "env": menv, "log": mlog_[:40]}, "ref": {"exc": rx, "env": renv, "log": rlog_[:40]}})
+            else:
+                ok += 1
+                dist["log_entries"] += len(impl_log)
+                if im["exc"]:
+                    dist["raising"] += 1
+                    dist["exceptions"][im["exc"]] = dist["exceptions"].get(im["exc"], 0) + 1
+    if bad:
+        ctx.tie_broken("correspondence", "K-sem: model/FragSem.v (typed rewriter, evaluation under observing handlers, reference stream) and the real "
+                       "rewriter / CPython disagree on %d of %d fragment programs" % (len(bad), len(cases)), json.dumps(bad[0])[-3500:])
+    return len(cases), ok, dist
